@@ -243,6 +243,9 @@ func (env *SpecEnv) evalIdent(name string) (Val, types.Type, error) {
 			}
 		}
 	}
+	if gl, gt, ok := env.gghostLoc(name); ok {
+		return Val{T: e.load(env.heap, gl)}, gt, nil
+	}
 	if obj := env.pkg.Scope().Lookup(name); obj != nil {
 		return env.objVal(obj)
 	}
@@ -250,6 +253,21 @@ func (env *SpecEnv) evalIdent(name string) (Val, types.Type, error) {
 		return env.objVal(obj)
 	}
 	return Val{}, nil, fmt.Errorf("unknown identifier %q", name)
+}
+
+// gghostLoc resolves a package-level ghost variable.
+func (env *SpecEnv) gghostLoc(name string) (*Loc, types.Type, bool) {
+	for key, gt := range env.e.P.specs.GGhosts {
+		if strings.HasSuffix(key, "."+name) {
+			t, err := env.lookupType(gt)
+			if err != nil {
+				return nil, nil, false
+			}
+			v := env.e.S.heapVar("ghost!g!"+key, env.e.S.sortOf(t))
+			return &Loc{Kind: locGhost, T: t, Var: v}, t, true
+		}
+	}
+	return nil, nil, false
 }
 
 func (env *SpecEnv) ghostLoc(g GhostDecl) (*Loc, types.Type, error) {
@@ -317,6 +335,9 @@ func (env *SpecEnv) evalLoc(x ast.Expr) (specVal, error) {
 				}
 			}
 		}
+		if gl, gt, ok := env.gghostLoc(n.Name); ok {
+			return specVal{loc: gl, t: gt}, nil
+		}
 		if obj := env.pkg.Scope().Lookup(n.Name); obj != nil {
 			if o, ok := obj.(*types.Var); ok {
 				v := e.S.globalVar(o.Pkg().Path(), o.Name(), o.Type())
@@ -333,6 +354,10 @@ func (env *SpecEnv) evalLoc(x ast.Expr) (specVal, error) {
 		pt, ok := b.t.Underlying().(*types.Pointer)
 		if !ok {
 			return specVal{}, fmt.Errorf("deref of non-pointer %s", b.t)
+		}
+		if b.loc == nil && b.v.Loc != nil {
+			// the pointer is the address of a field / element (e.g. &s.context passed as receiver)
+			return specVal{loc: b.v.Loc, t: pt.Elem()}, nil
 		}
 		return specVal{loc: &Loc{Kind: locCell, T: pt.Elem(), Ptr: env.term(b)}, t: pt.Elem()}, nil
 	case *ast.SelectorExpr:
@@ -398,6 +423,16 @@ func (env *SpecEnv) evalLoc(x ast.Expr) (specVal, error) {
 		b, err := env.evalLoc(n.X)
 		if err != nil {
 			return specVal{}, err
+		}
+		if id, ok := n.Index.(*ast.Ident); ok && id.Name == "_" {
+			// s[_]: the whole backing array of slice s
+			if sl, ok := b.t.Underlying().(*types.Slice); ok {
+				bt := env.term(b)
+				return specVal{loc: &Loc{Kind: locElemAll, T: sl.Elem(), Base: "(sl_base " + bt + ")"}, t: sl.Elem()}, nil
+			}
+			if _, ok := b.t.Underlying().(*types.Map); ok {
+				return specVal{loc: &Loc{Kind: locMapAll, T: b.t, Ptr: env.term(b)}, t: b.t}, nil
+			}
 		}
 		idx, _, err := env.eval(n.Index)
 		if err != nil {
@@ -640,6 +675,23 @@ func (env *SpecEnv) evalCall(n *ast.CallExpr) (Val, types.Type, error) {
 			}
 		}
 		return Val{}, nil, fmt.Errorf("loopvariant(%d): loop has no declared variant (or is not entered yet)", k)
+	case "unchangedarray":
+		// unchangedarray(x): the backing array of slice x (evaluated in the old state) has the same contents now as then
+		if env.old == nil {
+			return Val{T: "true"}, tBool, nil
+		}
+		a, at, err := env.old.child().eval(n.Args[0])
+		if err != nil {
+			return Val{}, nil, err
+		}
+		sl, ok := at.Underlying().(*types.Slice)
+		if !ok {
+			return Val{}, nil, fmt.Errorf("unchangedarray on %s", at)
+		}
+		ev := e.S.elemVar(sl.Elem())
+		return Val{T: fmt.Sprintf("(= (select %s (sl_base %s)) (select %s (sl_base %s)))", e.hget(env.heap, ev), a.T, e.hget(env.old.heap, ev), a.T)}, tBool, nil
+	case "allocmark":
+		return Val{T: e.hget(env.heap, e.S.allocVar())}, tInt, nil
 	case "typeis":
 		a, _, err := argv(0)
 		if err != nil {
